@@ -312,6 +312,16 @@ def run(ctx):
                 if len(st) > 200:
                     continue
                 mem = raw_file(si % 2, inhdr=st)
+                if si % 2:
+                    # the same name as a *directory* entry with recorded time and permissions (so that metadata is applied to
+                    # whatever the name resolves to), and as a symlink entry
+                    dm = dict(mem.m, method=b'-lhd-', size=0, crc=0, data=b'')
+                    if dm['level'] == 1:
+                        dm['exts'] = [(0x50, H.u16(0o40700)), (0x54, H.u32(1000000000))]
+                    else:
+                        dm['area'] = b'U\0' + H.u32(1000000000) + H.u16(0o40700) + H.u16(0) + H.u16(0)
+                    n[0] += 1
+                    jobs.append((n[0], 'name-enum:inhdr-name-dir', arc.archive([arc.Member(dm, b'', b'', kind='dir')]), ('xf', 'xfw=sub', 'xq')[si % 3], None, base, exe, so, []))
             n[0] += 1
             jobs.append((n[0], 'name-enum:%s' % ('ext-path', 'ext-filename', 'inhdr-name')[ch], arc.archive([mem]), ('xf', 'xfw=sub', 'xq')[si % 3], None, base, exe, so, []))
     ctx.cov['hostile_name_strings_enumerated'] = len(strings)
